@@ -153,6 +153,10 @@ def gen_case(rng, tier, idx):
                                    "helper_outcome": rng.choice(["ok"] * 6 + ["skip", "boom"]), "subtype": rng.random() < 0.2}
         classes.append(members)
     case = {"points": points, "classes": classes}
+    if rng.random() < 0.3:
+        # a third level: a class derived from an implementation class declares a spec again for a context
+        case["grand"] = [{"parent": rng.randrange(len(classes)), "k": rng.randrange(npts), "ctx": rng.choice(hot),
+                          "outcome": rng.choice(["ok", "ok", "skip", "ce", "boom"])} for _ in range(rng.randint(1, 2))]
     if rng.random() < 0.5:
         # implementation classes that are only defined after every context was evaluated once (a spec module that
         # is imported later); everything is then evaluated again
@@ -243,9 +247,18 @@ def run_case(spec, ctx):
                 d = mk_ds(tag, m["outcome"], deps, value, subtype=bool(m.get("subtype")))
                 body["p%d" % k] = d
                 impls[k].append((set(m["ctxs"]), m["outcome"], tag, helper_ok, d, value))
-            type("I%d_%d" % (uid, ci), (S,), body)
+            klass[ci] = type("I%d_%d" % (uid, ci), (S,), body)
+        klass = {}
+        grand = collections.defaultdict(list)      # k -> [(ctx name, outcome, tag)]
         for ci in phases[0]:
             define(ci, spec["classes"][ci])
+        for gi, g in enumerate(spec.get("grand", [])):
+            if g["parent"] in klass and g["k"] < npts:
+                gtag = "g%d_%d_%d" % (uid, gi, g["k"])
+                gd = mk_ds(gtag, g["outcome"], [C[g["ctx"]]], gtag)
+                type("G%d_%d" % (uid, gi), (klass[g["parent"]],), {"__module__": modname, "p%d" % g["k"]: gd})
+                grand[g["k"]].append((g["ctx"], g["outcome"], gtag))
+                ctx.count("third_level_declarations")
         # consumers
         consumers = []
         for k in range(npts):
@@ -295,6 +308,22 @@ def run_case(spec, ctx):
                         ctx.count("points_with_several_candidates")
                     if any(len(x[0]) > 1 for x in impls[k]):
                         nt = True
+                    ginv = [g for g in grand[k] if g[2] in LOG]
+                    if ginv:
+                        # the unchanged tree does not wire a third-level declaration to the spec at all (it never runs).  A tree
+                        # that does wire it must treat it as the newest implementation: nothing it overrides runs, other
+                        # contexts are not served, and a declaration that yields nothing leaves the spec absent
+                        g = ginv[-1]
+                        if g[0] != active:
+                            ctx.violation("implementation-for-other-context-executed", {"active": active, "point": k, "impl": g[2], "declared": [g[0]]})
+                        elif invoked or len(ginv) > 1:
+                            ctx.violation("overridden-implementation-executed", {"active": active, "point": k, "invoked": invoked + [x[2] for x in ginv],
+                                                                                  "newest": g[2], "note": "third-level declaration"})
+                        elif g[1] == "ok" and br.get(pts[k]) != g[2]:
+                            ctx.violation("spec-value-not-from-latest-implementation", {"active": active, "point": k, "got": repr(br.get(pts[k])), "expected": g[2]})
+                        elif g[1] != "ok" and pts[k] in br:
+                            ctx.violation("absent-spec-filled-from-overridden-implementation", {"active": active, "point": k, "got": repr(br.get(pts[k]))})
+                        continue
                     for x in impls[k]:
                         if active not in x[0] and x[2] in invoked:
                             ctx.violation("implementation-for-other-context-executed", {"active": active, "point": k, "impl": x[2], "declared": sorted(x[0])})
